@@ -9,6 +9,12 @@ def step15 (d : Nuts.Drv.Proto.DSt) (j : Json) : Nuts.Drv.Proto.DSt × List Stri
     let src := ((Nuts.Facts.C15.serverTLSConfig.find? (fun x => x.startsWith "ClientAuth=")).getD "ClientAuth=?").drop 11
     let mode := Nuts.C15.ClientAuthMode.ofSource src.toString
     (d, [s!"tlsclient accepted={Nuts.C15.serverAcceptsClient mode (jBool j "presented") (jBool j "chains")}"])
+  | "cmauth" =>
+    -- the certificate handed to the authenticator is the leaf; `leaf_covers` is x509's verdict on it (data)
+    let e : Nuts.C15.AuthEnv := { parseHost := fun _ => some "victim.example.org", verifyHostname := fun _ _ => jBool j "leaf_covers" }
+    let inp : Nuts.C15.AuthIn := { cert := if jBool j "cert" then some [] else none, endpoint := some "grpc://victim.example.org:5555" }
+    let (p, err) := Nuts.C15.cmAuthenticate .tls e (jStr j "claimed") { key := 0 } inp
+    (d, [s!"cmauth err={err} auth={p.authenticated} did={p.did}"])
   | _ => Nuts.Drv.Proto.step d j
 
 def main : IO Unit := do
